@@ -73,16 +73,27 @@ let rec print_sexp (b : Buffer.t) (e : sexp) : unit =
     List.iteri (fun i x -> if i > 0 then Buffer.add_char b ' '; print_sexp b x) l;
     Buffer.add_char b ')'
 
+(* per-case time limit for the model (seconds; VERIF_MODEL_TIMEOUT, default 60): the list-based model can take
+   very long on the few cases on which the implementation itself needs many seconds; such a case is answered with
+   (model-timeout) and the flow evaluates it with the implementation-side predicates only *)
+exception Model_timeout
+let limit = try int_of_string (Sys.getenv "VERIF_MODEL_TIMEOUT") with _ -> 60
+
 let () =
+  Sys.set_signal Sys.sigalrm (Sys.Signal_handle (fun _ -> raise Model_timeout));
   let b = Buffer.create 65536 in
   (try
      while true do
        let line = input_line stdin in
        if Stdlib.String.length line > 0 then begin
          Buffer.clear b;
-         (try print_sexp b (dispatch (parse_line line))
-          with Parse_error m -> Buffer.add_string b ("(driver-parse-error " ^ m ^ ")")
-             | Stack_overflow -> Buffer.add_string b "(driver-stack-overflow)");
+         (try
+            ignore (Unix.alarm limit);
+            (try print_sexp b (dispatch (parse_line line))
+             with Parse_error m -> Buffer.add_string b ("(driver-parse-error " ^ m ^ ")")
+                | Stack_overflow -> Buffer.add_string b "(driver-stack-overflow)");
+            ignore (Unix.alarm 0)
+          with Model_timeout -> (ignore (Unix.alarm 0); Buffer.clear b; Buffer.add_string b "(model-timeout)"));
          print_string (Buffer.contents b); print_newline ()
        end
      done
